@@ -114,7 +114,7 @@ check("C02", "exploration",
 
 check("C20", "exploration",
       "exhaustive enumeration of (input family x entry point) with a deterministic cost measure (basic-block execution counts of the library and the standard packages it leans on + allocated bytes, read from -cover counters of a build of the current tree; no clock) over a doubling ladder of sizes; growth-exponent oracle with culprit localisation",
-      "85 (thorough 86) input families (long lists, chains, nestings, long lexemes, literals with escapes, quoted identifiers, number forms, runs of first / second words of two-word keywords, many lines / comments / statements, n statements of each of 19 statement kinds, repeated findings) x 15 entry points (Tokenize, Parse, ParseWithRecovery, Validate, AST.SQL, AST.Format readable/compact, tree scan, text scans, LintString, Extract*, gosqlx.Format, formatter.FormatString, the CLI SQLFormatter) at n = 8..64 step 2 and 2^4..2^14 (thorough: up to 10 MiB / 1M tokens for tokenize and parse): total block count, every single block and allocated bytes must not grow by more than 2^1.5 per doubling over two consecutive doublings once above 10^5; the signature names the function holding the steepest block.",
+      "88 (thorough 89) input families (long lists, chains, nestings, long lexemes, literals with escapes, quoted identifiers, number forms, runs of first / second words of two-word keywords, identifiers and strings in typographic quotes and back-ticks, many lines / comments / statements, n statements of each of 19 statement kinds, repeated findings) x 15 entry points (Tokenize, Parse, ParseWithRecovery, Validate, AST.SQL, AST.Format readable/compact, tree scan, text scans, LintString, Extract*, gosqlx.Format, formatter.FormatString, the CLI SQLFormatter) at n = 8..64 step 2 and 2^4..2^14 (thorough: up to 10 MiB / 1M tokens for tokenize and parse): total block count, every single block and allocated bytes must not grow by more than 2^1.5 per doubling over two consecutive doublings once above 10^5; the signature names the function holding the steepest block.",
       "Trusted: block counts as a proxy for time (cost hidden inside assembly routines of the standard library is invisible: documented mutant M4); a calibration loop of known length is read back exactly at every start; families are hand-written.",
       "DESIGN.md §2.8, §3 C20", engine="engine/common + checks/c20 (cover-counter decoder)")
 
